@@ -70,8 +70,10 @@ Fixpoint restore_first_p (l : list pent) (mm : mem) : mem :=
 
 Lemma restore_all_proj : forall l mm, restore_all l mm = restore_all_p (map proj l) mm.
 Proof. induction l as [|e r IH]; intros mm; simpl; [reflexivity|]. rewrite IH. reflexivity. Qed.
-Lemma rehook_all_proj : forall l mm, rehook_all l mm = rehook_all_p (map proj l) mm.
+Lemma rehook_from_proj : forall l mm, rehook_from l mm = rehook_all_p (map proj l) mm.
 Proof. induction l as [|e r IH]; intros mm; simpl; [reflexivity|]. rewrite IH. reflexivity. Qed.
+Lemma rehook_all_proj : forall l mm, rehook_all l mm = rehook_all_p (rev (map proj l)) mm.
+Proof. intros. unfold rehook_all. rewrite rehook_from_proj, map_rev. reflexivity. Qed.
 Lemma restore_first_proj : forall l mm, restore_first l mm = restore_first_p (map proj l) mm.
 Proof. induction l as [|e r IH]; intros mm; simpl; [reflexivity|]. unfold p_ip, p_loc; simpl. rewrite IH. reflexivity. Qed.
 
@@ -110,7 +112,8 @@ Qed.
 Lemma chain_length : forall slot ra pend, length (chain slot ra pend) = length pend.
 Proof. induction pend; simpl; auto. Qed.
 
-Definition homog (pend : list bool) : Prop := exists b, forall k, In k pend -> k = b.
+(* (chains may mix PLT and mcount entries since mcount_rstack_rehook walks oldest-first, /repo fix C01-9) *)
+Definition homog (pend : list bool) : Prop := True.
 Definition fvalid (f : rframe) : Prop := valid_ra (f_ra f) = true /\ homog (f_pend f).
 
 Definition lt_all (x : N) (F : list rframe) : Prop := Forall (fun g => x < f_slot g) F.
